@@ -177,7 +177,11 @@ def lean_audit(prop_module, theorems, timeout=1200):
     os.makedirs(d, exist_ok=True)
     mods = [prop_module] if isinstance(prop_module, str) else list(dict.fromkeys(prop_module))
     path = os.path.join(d, "Audit_%s.lean" % mods[0].replace(".", "_"))
-    lines = ["import %s" % m for m in mods] + ["set_option pp.fieldNotation.generalized false", ""]
+    # a fixed printing context: how a statement is pretty-printed depends on the notations and delaborators in scope (`∀ x ∈ s`, `ℕ`), i.e.
+    # on what the audited modules happen to import; the two Mathlib modules that provide them are always imported, so that one theorem
+    # listed by several properties is printed identically in all of them
+    lines = ["import Mathlib.Util.Delaborators", "import Mathlib.Data.Nat.Notation"] + ["import %s" % m for m in mods] + \
+            ["set_option pp.fieldNotation.generalized false", ""]
     for t in theorems:
         lines.append('#eval IO.println "@@THM %s"' % t)
         lines.append("#check @%s" % t)
